@@ -30,9 +30,6 @@ open Swat4 Swat4.Drv Swat4.Rest
 
 /-- `DiscoveryRevivalRetries` of the harness world (`world.DefaultOptions().RevivalRetries`) -/
 def maxProbeRetries : Nat := 2
-/-- `probe.GoalPort` -/
-def goalPort : Nat := 1
-
 def chars? (b : Bytes) : Option (List Char) := (String.fromUTF8? (ByteArray.mk b.toArray)).map String.toList
 def utf8 (cs : List Char) : Bytes := (String.ofList cs).toUTF8.toList
 /-- bytes as Latin-1 code points: for the spec-side parsers, which only look at ASCII -/
@@ -151,11 +148,16 @@ def stateFor (pl : Option Planted) (a : Addr) : SrvState :=
   | some p => if p.ip = a.ip ∧ p.port = a.port then .present p.status p.queryPort p.stored else .absent
   | none => .absent
 
-def renderEffect : Effect → String
-  | .none => "none"
-  | .discover created a qp w =>
-    let probe := s!"probe:{addrStr a},{a.port},{goalPort},0,{maxProbeRetries}"
-    if created then s!"new:{addrStr a},{qp},{w}+{probe}" else s!"{probe}+upd:{addrStr a},{qp},{w}"
+/-- `addr,port,goal,retries,maxretries` of a queued probe -/
+def renderProbe (p : ProbeFields) : String := s!"probe:{addrStr p.addr},{p.port},{p.goal},{p.retries},{p.maxRetries}"
+
+/-- the probe is the model's (`Rest.Effect.probe` = `Rest.discoveryProbe` of the effect's address with the harness
+world's retry budget); a new record is written before the probe is queued, an existing one is marked after -/
+def renderEffect (e : Effect) : String :=
+  match e, e.probe maxProbeRetries with
+  | .discover created a qp w, some p =>
+    if created then s!"new:{addrStr a},{qp},{w}+{renderProbe p}" else s!"{renderProbe p}+upd:{addrStr a},{qp},{w}"
+  | _, _ => "none"
 
 /-! ## the canonical body token (`harness/internal/c17/canon.go`) -/
 
@@ -190,17 +192,19 @@ def renderBody : RespBody → String
   | .detail d => renderDetail d
   | .list l => renderList l
 
-/-- `gin.H{"error": "Invalid server address"}` of the two handlers' 400 -/
-def errorBody : String := "{error:s" ++ Bytes.toHex (Bytes.ofAscii "Invalid server address") ++ "}"
+/-- `gin.H{"error": <message>}` in the canonical body syntax -/
+def errorBody (msg : String) : String := "{error:s" ++ Bytes.toHex msg.toUTF8.toList ++ "}"
 
-/-- `emptyOn400`: the listing's 400 is `c.Status(400)`, without a body -/
+/-- `emptyOn400`: the listing's 400 is `c.Status(400)`, without a body (`Rest.Resp.errorMessage` decides) -/
 def renderResp (r : Resp) (emptyOn400 : Bool := false) : List String :=
   let (h, p) := match r.hostnames with
     | some (h, p) => (Bytes.toHexTok (utf8 h), Bytes.toHexTok (utf8 p))
     | none => ("~", "~")
   let body := match r.body with
     | some b => renderBody b
-    | none => if r.status = 400 ∧ !emptyOn400 then errorBody else "~"
+    | none => match r.errorMessage emptyOn400 with
+      | some msg => errorBody msg
+      | none => "~"
   [toString r.status, h, p, renderEffect r.effect, body]
 
 /-- the structural characters of a canonical token are tokens by themselves, the rest are atoms / names -/
@@ -359,7 +363,7 @@ def bodyOracle (shape : Shape) (pl : Option Planted) (code : Nat) (body : String
       match shape with
       | .server => wholeBody (checkServer "" p.spec (tokenize body))
       | .detail => wholeBody (checkDetail p.spec (tokenize body))
-  else if body = "~" ∨ body = errorBody then (true, "")
+  else if body = "~" ∨ body = errorBody invalidAddressMessage then (true, "")
   else (false, "sig=body:data-without-200")
 
 /-- oracle common to the three HTTP operations, on the implementation's five output tokens -/
